@@ -188,12 +188,13 @@ def check_case(ctx: Ctx, case) -> None:
                                             f"{type(e).__name__}: {e}", dict(rc, with_unknown=utext))
                 return
         if _same(ctx, "unknown-ignored", base, base_obs, other, dict(rc, with_unknown=utext)):
-            reported = sorted(C.unhandled_sections(recs))
             want = sorted(u[0] for u in unknown)
-            if reported != want:
-                ctx.fail("unknown-reported", f"unknown sections {want} but reported {reported}",
+            why = C.reports_match(C.records_of(recs, "chartparse.chart"), want)
+            if why:
+                ctx.fail("unknown-reported", f"unknown sections {want} are not reported exactly once "
+                                             f"each: {why}; records {[r.getMessage()[:80] for r in recs][:4]}",
                          dict(rc, with_unknown=utext))
-            others = [r.getMessage() for r in recs if not r.getMessage().startswith("unhandled data")]
+            others = [r.getMessage() for r in recs if r.name != "chartparse.chart"]
             if others:
                 ctx.fail("unknown-reported", f"unexpected log records {others[:3]}",
                          dict(rc, with_unknown=utext))
